@@ -57,11 +57,17 @@ theorem peelLoop_inv (G : GraphOK H) (hst : ∀ s, stabs s = true → s < H.leng
         intro hr
         have := root_leaf_done hst T I hr s
         rw [hsyn] at this; exact absurd this (by simp)
-      rw [peelRound_eq G hst T I hroot]
-      simp only []
-      have I' := PInv_next G hst T I hroot
       obtain ⟨w, hw⟩ := exists_leaf T I (I.syn_al s hsyn)
       have hwa := leaf_alive I hw
+      have hn : ncols H ≠ 0 := by
+        -- the leaf `w` is not the root: it shares a qubit with its parent
+        have he := (edge_spec G T (leaf_edge hst T I hroot hw)).1
+        have he' := (adjq_true H stabs qubits _ _ _).mp he
+        have := (G.inRange _ _ he'.1).2
+        omega
+      rw [peelRound_eq G hst T I hroot hn]
+      simp only []
+      have I' := PInv_next G hst T I hroot
       have hlt : cnt H.length (fun v => al v && !decide (v ∈ st.leaves)) < cnt H.length al := by
         apply cnt_lt _ _ _ _ w (hst w (I.al_stabs w hwa)) hwa
         · simp [hw]
@@ -70,8 +76,8 @@ theorem peelLoop_inv (G : GraphOK H) (hst : ∀ s, stabs s = true → s < H.leng
           exact hi.1
       exact ih _ _ I' (by omega)
 
-/-- **peeling a spanning tree** (`Peeling_Tree.peel` after `_build_tree`): on a graph without
-    parallel edges, for a cluster whose member stabilizers are spanned by the tree `S0` and
+/-- **peeling a spanning tree** (`Peeling_Tree.peel` after `_build_tree`): on a multigraph
+    (parallel edges allowed), for a cluster whose member stabilizers are spanned by the tree `S0` and
     carry an even number of defects, the loop terminates within `m + 1` rounds without a shape
     error, and the list it returns is duplicate-free, consists of member qubits, and has
     boundary exactly the defect set: for EVERY row `s` of the full matrix, the number of listed
@@ -111,9 +117,9 @@ theorem peelLoop_spec (G : GraphOK H) (hst : ∀ s, stabs s = true → s < H.len
       peelLoop_inv G hst T (H.length + 1) _ stabs I (by have := cnt_le H.length stabs; omega)
     refine ⟨st', hrun, I'.corr_nodup, ?_, ?_⟩
     · intro q hq
-      obtain ⟨p, c, hpc, _, hadj⟩ := I'.corr_removed q hq
-      have := (adjq_true H stabs qubits p c q).mp hadj
-      exact ⟨this.2.2.1, (G.inRange p q this.1).2⟩
+      obtain ⟨p, c, hpc, _, rfl⟩ := I'.corr_removed q hq
+      have := (adjq_true H stabs qubits p c _).mp (edge_spec G T hpc).1
+      exact ⟨this.2.2.1, (G.inRange p _ this.1).2⟩
     · intro s
       have hzero : st'.syn s = false := by
         cases hss : st'.syn s
